@@ -238,7 +238,7 @@ def gen(tier: str, seed: int):
     cfg.foreign = True
     cfg.reexport_forms = tuple(f for f in cfg.reexport_forms if f.split("-")[0] in ("name", "alias"))
     allowed = {c for c in c11.REF_CATEGORIES if f"ref:{c}" not in gated}
-    n = 6 if tier == "quick" else 300
+    n = 6 if tier == "quick" else 200
     groups = []
     for i in range(n):
         cfg.n_modules = (5, 9)
